@@ -97,8 +97,8 @@ class SQLLiteQueryBuilder(QueryBuilder):
 
             if self._orderbys:
                 querystring += self._orderby_sql(ctx)
-            if self._limit:
-                querystring += self._limit_sql(ctx)
+            # UPDATE .. LIMIT takes an OFFSET like a query does (dropping it would update other rows)
+            querystring = self._apply_pagination(querystring, ctx)
         else:
             querystring = super().get_sql(ctx=ctx)
         return querystring
